@@ -421,9 +421,11 @@ func Do(c *restful.Container, rec *Recorder, r model.ReqSpec, via, id string) (o
 			c.Dispatch(w, hr)
 		}
 	}()
+	wd := time.NewTimer(RequestWatchdog)
 	select {
 	case o.Panic = <-done:
-	case <-time.After(RequestWatchdog):
+		wd.Stop()
+	case <-wd.C:
 		// "exactly one outcome" includes that there is one: a request that is still busy inside
 		// go-restful after two looks at the goroutine dump does not terminate (or waits for a
 		// lock the library left held). Anything else the dump shows proves nothing.
